@@ -19,7 +19,7 @@ def csdY : String × String := ("y", "Yref.reshape(1, Yref.shape[0], Yref.shape[
     `csd(x, y, window='boxcar', nperseg=nxseg//2, noverlap=0, nfft=nxseg)`; `fs`, `detrend`, `scaling`, `average`,
     `return_onesided`, `axis` are scipy's defaults (`1.0`, `'constant'`, `'density'`, `'mean'`, one-sided, last axis). -/
 theorem C13_sd_est_csd_cor :
-    bindsExactly sites "SD_est" "signal.csd" 0 ["method == 'cor'"]
+    bindsUnder sites "SD_est" "signal.csd" "method == 'cor'"
       [csdX, csdY, ("window", "'boxcar'"), ("nperseg", "nxseg // 2"), ("noverlap", "0"), ("nfft", "nxseg")] = true := by
   decide
 
@@ -27,24 +27,27 @@ theorem C13_sd_est_csd_cor :
     `csd(x, y, fs=1/dt, window='hann', nperseg=nxseg, noverlap=nxseg*pov)`; `nfft`, `detrend`, `scaling`, `average` are
     scipy's defaults. -/
 theorem C13_sd_est_csd_per :
-    bindsExactly sites "SD_est" "signal.csd" 1 ["not (method == 'cor')", "method == 'per'"]
+    bindsUnder sites "SD_est" "signal.csd" "method == 'per'"
       [csdX, csdY, ("fs", "1 / dt"), ("window", "'hann'"), ("nperseg", "nxseg"), ("noverlap", "nxseg * pov")] = true := by
   decide
 
 /-- **C13 (`expWin`).** The lag window: `exponential(M = n₂, center = 0, tau = −n₂/log(0.01), sym = False)` with
     `n₂ = irfft(Pxy).shape[2]`, in the `'cor'` branch. -/
 theorem C13_sd_est_expwin :
-    bindsExactly sites "SD_est" "signal.windows.exponential" 0 ["method == 'cor'"]
+    bindsUnder sites "SD_est" "signal.windows.exponential" "method == 'cor'"
       [("M", "np.fft.irfft(Pxy).shape[2]"), ("center", "0"),
        ("tau", "-np.fft.irfft(Pxy).shape[2] / np.log(0.01)"), ("sym", "False")] = true := by
   decide
 
-/-- **C13.** These are all the `csd` / window / module-function calls of `SD_est`, in this order; the first `csd`
-    result goes to `Pxy` (its frequency vector is dropped), the second IS `freq, Sy`. -/
+/-- **C13.** These are all the `csd` / window / module-function calls of `SD_est` (two `csd`, one window; which branch
+    is written first is immaterial: the tests are exclusive); the `csd` result of the `'cor'` branch goes to `Pxy` (its
+    frequency vector is dropped), that of the `'per'` branch IS `freq, Sy`. -/
 theorem C13_sd_est_calls :
-    callsOf sites "SD_est" = ["signal.csd", "signal.windows.exponential", "signal.csd"]
-    ∧ (siteOf sites "SD_est" "signal.csd" 0).map (·.ret) = some ["_", "Pxy"]
-    ∧ (siteOf sites "SD_est" "signal.csd" 1).map (·.ret) = some ["freq", "Sy"]
+    (callsOf sites "SD_est").length = 3
+    ∧ (callsOf sites "SD_est").count "signal.csd" = 2
+    ∧ (callsOf sites "SD_est").count "signal.windows.exponential" = 1
+    ∧ (sitesUnder sites "SD_est" "signal.csd" "method == 'cor'").map (·.ret) = [["_", "Pxy"]]
+    ∧ (sitesUnder sites "SD_est" "signal.csd" "method == 'per'").map (·.ret) = [["freq", "Sy"]]
     ∧ (sites.filter (fun s => s.caller == "SD_est")).all (fun s => !s.loop) = true := by
   decide
 
@@ -61,18 +64,27 @@ def pregerArgs (ref : String) : List (String × String) :=
   [("Yall", "np.vstack((Y[ii]['ref'], Y[ii]['mov']))"), ("Yref", ref), ("dt", "1 / fs"),
    ("nxseg", "nxseg"), ("method", "method"), ("pov", "pov")]
 
-/-- **C04 (`Model/PreGER.callArgs`, `gyy`).** `SD_PreGER` calls `SD_est` four times inside the loop over the setups:
-    per setup (all sensors, reference block) then (all sensors, moving block), `dt = 1/fs`, and `nxseg`, `method`, `pov`
-    handed on unchanged — under `method == 'per'`, and the same two calls under `method == 'cor'`; nothing else. -/
+/-- the `SD_est` calls of `SD_PreGER`, in source order -/
+def pregerSites : List FnSite := sites.filter (fun s => s.caller == "SD_PreGER" && s.callee == "SD_est")
+
+/-- the calls come in pairs under one and the same branch test: (all sensors, reference block) → `freq, Sy_allref`,
+    then (all sensors, moving block) → `_, Sy_allmov` -/
+def pairsOk : List FnSite → Bool
+  | a :: b :: rest =>
+    a.bind == pregerArgs "Y[ii]['ref']" && a.ret == ["freq", "Sy_allref"]
+      && b.bind == pregerArgs "Y[ii]['mov']" && b.ret == ["_", "Sy_allmov"] && a.path == b.path && pairsOk rest
+  | [] => true
+  | _ => false
+
+/-- **C04 (`Model/PreGER.callArgs`, `gyy`).** Every call `SD_PreGER` makes is an `SD_est` call inside the loop over the
+    setups, and the calls come in pairs per branch: (all sensors, reference block) then (all sensors, moving block), with
+    `dt = 1/fs`, and `nxseg`, `method`, `pov` handed on unchanged.  (Whether the `'per'` and `'cor'` branches are written
+    as two textually identical bodies — as in the pinned tree — or as one is immaterial and not constrained.) -/
 theorem C04_preger_sd_est_calls :
-    callsOf sites "SD_PreGER" = ["SD_est", "SD_est", "SD_est", "SD_est"]
-    ∧ bindsExactly sites "SD_PreGER" "SD_est" 0 ["method == 'per'"] (pregerArgs "Y[ii]['ref']") = true
-    ∧ bindsExactly sites "SD_PreGER" "SD_est" 1 ["method == 'per'"] (pregerArgs "Y[ii]['mov']") = true
-    ∧ bindsExactly sites "SD_PreGER" "SD_est" 2 ["not (method == 'per')", "method == 'cor'"] (pregerArgs "Y[ii]['ref']") = true
-    ∧ bindsExactly sites "SD_PreGER" "SD_est" 3 ["not (method == 'per')", "method == 'cor'"] (pregerArgs "Y[ii]['mov']") = true
-    ∧ (sites.filter (fun s => s.caller == "SD_PreGER")).all (fun s => s.loop) = true
-    ∧ ((sites.filter (fun s => s.caller == "SD_PreGER")).map (·.ret)
-        = [["freq", "Sy_allref"], ["_", "Sy_allmov"], ["freq", "Sy_allref"], ["_", "Sy_allmov"]]) := by
+    pregerSites ≠ []
+    ∧ (callsOf sites "SD_PreGER").all (· == "SD_est") = true
+    ∧ pregerSites.all (fun s => s.loop) = true
+    ∧ pairsOk pregerSites = true := by
   decide
 
 /-- **C06 / C07 (`Model/EfddAll.efddMpe`).** `EFDD_mpe` decomposes `Sy` once, runs the FDD stage once on the result with
